@@ -152,8 +152,12 @@ func VerifC13_RequestResponse() {
 // ---- O3: query / sub / qsub sequencing ----
 
 func c13Seed(api *DatabaseAPI, keys ...string) {
+	c13SeedFormat(api, 'J', keys...)
+}
+
+func c13SeedFormat(api *DatabaseAPI, format byte, keys ...string) {
 	for _, k := range keys {
-		api.Handle(append(c13Msg("seed", "create", k+"|"), 'J', '{', '}'))
+		api.Handle(append(c13Msg("seed", "create", k+"|"), format, '{', '}'))
 		rt.Quiesce(time.Second)
 	}
 	c13Replies = nil
@@ -163,9 +167,22 @@ func VerifC13_Query() {
 	rt.SchedYieldOnly(true)
 	api := c13Setup()
 	k := rt.Len("records", 0, 2)
-	c13Seed(api, []string{"tdb:q/1", "tdb:q/2"}[:k]...)
+	// records in a format with (JSON) or without (MsgPack) field access
+	json := rt.Bool("json-records")
+	format := byte('J')
+	if !json {
+		format = 'M'
+	}
+	c13SeedFormat(api, format, []string{"tdb:q/1", "tdb:q/2"}[:k]...)
 	cancel := rt.Bool("cancel")
-	api.Handle(c13Msg("q9", "query", "query tdb:q/"))
+	// with a condition no record satisfies, the result is empty
+	where := rt.Bool("where")
+	if where {
+		api.Handle(c13Msg("q9", "query", "query tdb:q/ where nosuchfield exists"))
+		k = 0
+	} else {
+		api.Handle(c13Msg("q9", "query", "query tdb:q/"))
+	}
 	if cancel {
 		api.Handle([]byte("q9|cancel"))
 	}
